@@ -486,6 +486,15 @@ pub fn ahead_family(id0: usize, rng: &mut Rng, out: &mut Vec<String>) {
     // one thread collecting all n, or (small bodies only) n receiver threads taking one each
     let park = !streamed_first && rng.chance(1, 3);
     c.handlers = if park { Handlers::Park(n) } else { Handlers::Collect(n, (0..n).collect()) };
+    // ... or: the streamed first request is given up for its raw writer, body unread, and the
+    // writer is kept while the successors are collected (they must not wait for it)
+    if streamed_first && rng.chance(1, 3) {
+        c.base.script[0].as_reader = 0;
+        c.base.script[0].read_total = 0;
+        c.base.script[0].delay_ms = 0;
+        c.base.script[0].fin = Finish::Writer(g::raw_message(0, rng));
+        c.handlers = Handlers::WriterFirst(n);
+    }
     let o = execute(&c, &default_cfg(rng));
     // with parked receivers the delivery order is the receivers' business: compare the wire and the count only
     if park {
